@@ -521,6 +521,7 @@ func runUDPClient(phases []phase) error {
 		stalled := false
 		last := time.Now()
 		var lastAnswer time.Time
+		answers := 0
 		var maxGap time.Duration // longest time between two answers: the node can only be expected to stay if it kept hearing something
 		// the window starts with the first datagram of the node (a fresh channel after the reconnect delay); on a
 		// starved machine that can take long, and it is not what this phase is about
@@ -538,7 +539,11 @@ func runUDPClient(phases []phase) error {
 				if !lastAnswer.IsZero() && time.Since(lastAnswer) > maxGap {
 					maxGap = time.Since(lastAnswer)
 				}
-				lastAnswer = time.Now()                                        // before the write: the node cannot have read this answer earlier
+				lastAnswer = time.Now() // before the write: the node cannot have read this answer earlier
+				if answers%3 == 1 {
+					pc.WriteTo([]byte{}, addr) //nolint:errcheck // an empty datagram (a keep-alive, a NAT hole punch): no data, no error
+				}
+				answers++
 				pc.WriteTo(tagged(1, pi, "debug", true, nil, 0).Bytes(), addr) //nolint:errcheck
 			}
 		}
@@ -976,6 +981,9 @@ func runServer(udp bool, peers, first []string) error {
 						r.stalled = true // the sender or the whole process was held up: inconclusive
 					}
 					last = time.Now()
+					if udp && k%2 == 0 {
+						p.Send([]byte{}) //nolint:errcheck // an empty datagram between the frames: no data, no error, no reason to close
+					}
 					p.Send(tagged(byte(i+1), k, "debug", true, nil, 0).Bytes()) //nolint:errcheck
 					k++
 				}
